@@ -28,9 +28,10 @@ VARIABLES l,        \* cursor
           lost,     \* name keys for which a conflicting response arrived before they were announced: must not be taken (C08)
           ncseen,   \* new names reported by NameChange events
           compet,   \* name key -> time of the last competing probe delivered while we were probing it
+          defer,    \* <<name key, interface>> -> earliest time of the next probe after a tiebreak the driver knows to be lost (C08.backoff)
           viol, hits,
           streak    \* consecutive idle iterations whose requested wake-up is at most 1 ms ahead (C12.nospin)
-vars == <<streak, l, scen, myhost, ifs, reg, ann, probes, noisy, owed, inbox, cmds, ipint, cand, lost, ncseen, compet, viol, hits>>
+vars == <<streak, l, scen, myhost, ifs, reg, ann, probes, noisy, owed, inbox, cmds, ipint, cand, lost, ncseen, compet, defer, viol, hits>>
 
 Ev == Rec[l]
 T  == Ev.t
@@ -284,6 +285,18 @@ Iter ==
                   IF x \in probed /\ backoff(x) THEN <<T>>
                   ELSE IF x \in probed /\ (SeqOf(s.probes, x) = <<>> \/ Last(SeqOf(s.probes, x)) # T)
                   THEN Append(SeqOf(s.probes, x), T) ELSE SeqOf(s.probes, x)]
+         \* C08, the one-second wait: a competing probe that the driver built to win the comparison (origin "tiebreak-lose"), read
+         \* while the name is being probed on the receiving interface (a probe sent in an earlier iteration, not yet announced):
+         \* the daemon defers, its next probe for the name on that interface is a second or more after it read the datagram
+         lostNow == UNION {
+              LET d == inbox[j] IN
+              IF d.ok /\ "origin" \in DOMAIN d /\ d.origin = "tiebreak-lose"
+              THEN {<<nk, d["if"]>> : nk \in {d.m.q[x].n.k : x \in 1..Len(d.m.q)} \cap Dom(R1)}
+              ELSE {} : j \in 1..Len(inbox)}
+         vBackoff == UNION {V("C08.backoff", x \notin Dom(defer) \/ T >= defer[x],
+                              <<IF \E k \in Dom(R2) : k = x[1] /\ R2[k].dotted
+                                THEN "competing probe for an instance name with a dot inside a label is not recognised (wire names are compared unescaped with escaped registered names): no wait after a lost tiebreak"
+                                ELSE "a probe goes out less than a second after a lost tiebreak", x, defer[x] - 1000, T>>) : x \in probed}
          vProbe == UNION {
               (IF SeqOf(s.probes, x) # <<>> /\ Last(SeqOf(s.probes, x)) < T
                THEN V("C07.spacing", T - Last(SeqOf(s.probes, x)) >= 250, <<x, SeqOf(s.probes, x), T>>) ELSE {})
@@ -382,12 +395,16 @@ Iter ==
                                         <<IF o.kind = "ann2" THEN "no second announcement is queued for one second after the first"
                                           ELSE "no goodbye repeat is queued for 120 ms after the goodbye", o.fnk, o.due, T>>)
                                       : o \in {x \in O2 : x.kind \in {"ann2", "bye2"} /\ x.due > T}}
-     IN /\ viol' = Cap(viol, SpinV \cup s.v \cup vProbe \cup vAnn \cup vBye \cup vOwed \cup vQ \cup vQuiet \cup vWake \cup vRename \cup vNoTake \cup vLoop)
+     IN /\ viol' = Cap(viol, SpinV \cup s.v \cup vProbe \cup vAnn \cup vBye \cup vOwed \cup vQ \cup vQuiet \cup vWake \cup vRename \cup vNoTake \cup vLoop \cup vBackoff)
         /\ lost' = lost \cup conflictNames
         /\ ncseen' = ncseen \cup ncNow
         /\ compet' = [x \in Dom(compet) \cup competNow |-> IF x \in competNow THEN T ELSE compet[x]]
+        /\ LET deferNow == {x \in lostNow : /\ SeqOf(s.probes, x) # <<>> /\ Last(SeqOf(s.probes, x)) < T
+                                            /\ x \notin Dom(s.ann) /\ x \notin Dom(A2) /\ x \notin Dom(defer)}
+           IN defer' = [x \in Dom(defer) \cup deferNow |-> IF x \in Dom(defer) THEN defer[x] ELSE T + 1000]
         /\ reg' = R2 /\ ann' = A2 /\ probes' = P2 /\ owed' = O2 /\ ipint' = s.ipint
         /\ hits' = hits \cup (IF Probe # {} THEN {"C07.probe"} ELSE {})
+                        \cup (IF \E x \in probed : x \in Dom(defer) THEN {"C08.backoff"} ELSE {})
                         \cup (IF "loop" \in DOMAIN Ev /\ Ev.loop /\ Ev.ntm > 0 THEN {"C12.loop-wake"} ELSE {})
                         \cup (IF "loop" \in DOMAIN Ev /\ Ev.loop /\ Len(Ev.rr) > 0 THEN {"C12.loop-cover"} ELSE {})
                         \cup (IF "loop" \in DOMAIN Ev /\ Ev.loop /\ Ev.alive /\ \E o \in O2 : o.kind = "ann2" /\ o.due > T THEN {"C07.loop-ann2"} ELSE {})
@@ -404,14 +421,14 @@ Iter ==
 Reset == /\ Ev.e = "reset"
          /\ scen' = Ev.scen.id /\ myhost' = 0 /\ ifs' = <<>> /\ reg' = <<>> /\ ann' = <<>> /\ probes' = <<>>
          /\ noisy' = {} /\ owed' = {} /\ inbox' = <<>> /\ cmds' = <<>> /\ ipint' = 5000
-         /\ cand' = <<>> /\ lost' = {} /\ ncseen' = {} /\ compet' = <<>>
+         /\ cand' = <<>> /\ lost' = {} /\ ncseen' = {} /\ compet' = <<>> /\ defer' = <<>>
          /\ UNCHANGED <<viol, hits, streak>>
 RECURSIVE LastReset(_)
 LastReset(j) == IF Rec[j].e = "reset" THEN j ELSE LastReset(j - 1)
 Spawn == /\ Ev.e = "spawn"
          /\ myhost' = Ev.host + 1
          /\ ifs' = Rec[LastReset(l)].hosts[Ev.host + 1]
-         /\ UNCHANGED <<scen, reg, ann, probes, noisy, owed, inbox, cmds, ipint, viol, hits, streak, cand, lost, ncseen, compet>>
+         /\ UNCHANGED <<scen, reg, ann, probes, noisy, owed, inbox, cmds, ipint, viol, hits, streak, cand, lost, ncseen, compet, defer>>
 (* an interface that shows up later: every registration that has an address on its link is owed there, once the   *)
 (* daemon has looked at the interface table (one check interval), probed and announced                            *)
 IfsEv == /\ Ev.e = "ifs"
@@ -422,22 +439,22 @@ IfsEv == /\ Ev.e = "ifs"
                                               : x \in {y \in Range(Ev.ifs) : y.up /\ Link(reg[k], Ev.ifs, y.idx) # {}
                                                                                 /\ Link(reg[k], ifs, y.idx) = {}
                                                                                 /\ <<k, y.idx>> \notin Dom(ann)}} : k \in Dom(reg)}
-         /\ UNCHANGED <<scen, myhost, reg, ann, probes, noisy, inbox, cmds, ipint, viol, hits, streak, cand, lost, ncseen, compet>>
+         /\ UNCHANGED <<scen, myhost, reg, ann, probes, noisy, inbox, cmds, ipint, viol, hits, streak, cand, lost, ncseen, compet, defer>>
 Call == /\ Ev.e = "call"
         /\ cmds' = Append(cmds, Ev)
-        /\ UNCHANGED <<scen, myhost, ifs, reg, ann, probes, noisy, owed, inbox, ipint, viol, hits, streak, cand, lost, ncseen, compet>>
+        /\ UNCHANGED <<scen, myhost, ifs, reg, ann, probes, noisy, owed, inbox, ipint, viol, hits, streak, cand, lost, ncseen, compet, defer>>
 Deliver == /\ Ev.e = "deliver"
            /\ inbox' = Append(inbox, Ev)
-           /\ UNCHANGED <<scen, myhost, ifs, reg, ann, probes, noisy, owed, cmds, ipint, viol, hits, streak, cand, lost, ncseen, compet>>
+           /\ UNCHANGED <<scen, myhost, ifs, reg, ann, probes, noisy, owed, cmds, ipint, viol, hits, streak, cand, lost, ncseen, compet, defer>>
 Names == /\ Ev.e = "names"
          /\ cand' = Put(cand, Ev.fnk, [inst |-> Ev.inst, instk |-> Ev.instk, host |-> Ev.host, hostk |-> Ev.hostk])
-         /\ UNCHANGED <<streak, scen, myhost, ifs, reg, ann, probes, noisy, owed, inbox, cmds, ipint, lost, ncseen, compet, viol, hits>>
+         /\ UNCHANGED <<streak, scen, myhost, ifs, reg, ann, probes, noisy, owed, inbox, cmds, ipint, lost, ncseen, compet, defer, viol, hits>>
 Skip == /\ Ev.e \in {"adv", "dead", "note", "end"}
         /\ viol' = viol
-        /\ UNCHANGED <<scen, myhost, ifs, reg, ann, probes, noisy, owed, inbox, cmds, ipint, hits, streak, cand, lost, ncseen, compet>>
+        /\ UNCHANGED <<scen, myhost, ifs, reg, ann, probes, noisy, owed, inbox, cmds, ipint, hits, streak, cand, lost, ncseen, compet, defer>>
 
 Init == /\ l = 1 /\ scen = 0 /\ myhost = 0 /\ ifs = <<>> /\ reg = <<>> /\ ann = <<>> /\ probes = <<>>
-        /\ noisy = {} /\ owed = {} /\ inbox = <<>> /\ cmds = <<>> /\ ipint = 5000 /\ cand = <<>> /\ lost = {} /\ ncseen = {} /\ compet = <<>> /\ viol = {} /\ hits = {} /\ streak = 0
+        /\ noisy = {} /\ owed = {} /\ inbox = <<>> /\ cmds = <<>> /\ ipint = 5000 /\ cand = <<>> /\ lost = {} /\ ncseen = {} /\ compet = <<>> /\ defer = <<>> /\ viol = {} /\ hits = {} /\ streak = 0
 Next == l <= Len(Rec) /\ l' = l + 1 /\ (Reset \/ Spawn \/ IfsEv \/ Call \/ Deliver \/ Names \/ Skip \/ Iter)
 Spec == Init /\ [][Next]_vars
 
